@@ -92,4 +92,12 @@ theorem sortedKeys_head_ne {k : String} {v : Shape} {l : Members}
   rw [heq] at this
   simp [ReflCmp.compare_self] at this
 
+theorem sizeOf_lt_of_mem_members {oc : Members} {kv : String × Shape} (h : kv ∈ oc) :
+    sizeOf kv.2 < sizeOf oc := by
+  have := List.sizeOf_lt_of_mem h
+  obtain ⟨k, v⟩ := kv
+  simp at this ⊢
+  omega
+
+
 end ShapeVerif
